@@ -143,7 +143,7 @@ func streamC12(env *runEnv) {
 			c12cfg{mode: "unsigned", hosts: []string{addrs[0]}, template: "{{ username }}@corp", verify: true},
 			c12cfg{mode: "any", hosts: []string{addrs[0]}, split: true, noUsername: true, verify: false})
 	}
-	users := []struct{ name, sub string }{{"1", "1"}, {"alice", "alice"}, {"bob@example.com", "bob@example.com"}, {"1", "sub-1234"}, {ph, ph}, {"2@dom", "2@dom"}}
+	users := []struct{ name, sub string }{{"1", "1"}, {"alice", "alice"}, {"bob@example.com", "bob@example.com"}, {"1", "sub-1234"}, {ph, ph}, {"2@dom", "2@dom"}, {"j\u00fcrgen@b\u00fcro", "j\u00fcrgen@b\u00fcro"}}
 	n := 0
 	for ci, cf := range cfgs {
 		dir := filepath.Join(env.workdir, fmt.Sprintf("c12-%d", ci))
